@@ -140,3 +140,19 @@ Proof. exact translated_flag_then_global_is_spec. Qed.
 (* before any write_global: `static USER = AtomicChoice::new()` read back by ColorChoice::global() *)
 Theorem c09_translated_initial_global : (u <- g_user_initial ;; g_global u) = Some ch_global_initial.
 Proof. exact translated_initial_global. Qed.
+
+(* impl Default for ColorChoice: `Auto` *)
+Theorem c09_translated_default_choice : g_choice_default = ch_choice_default.
+Proof. exact g_choice_default_eq. Qed.
+
+(* impl Default for AtomicChoice: the value of AtomicChoice::new(), never panics *)
+Theorem c09_translated_default_atomic : g_atomic_default = Some ch_atomic_default.
+Proof. exact g_atomic_default_eq. Qed.
+
+(* the default atomic is the initial value of `static USER`; read back (AtomicChoice::get, ColorChoice::global on
+   the never-written static) it holds the default choice *)
+Theorem c09_translated_defaults_agree :
+  g_atomic_default = g_user_initial /\
+  (a <- g_atomic_default ;; g_atomic_get a) = Some g_choice_default /\
+  (u <- g_user_initial ;; g_global u) = Some g_choice_default.
+Proof. exact translated_default_atomic_holds_default_choice. Qed.
